@@ -24,7 +24,9 @@ class Run:
 			port = 9000 + 10 * i
 			self.eps.append(world.net.endpoint("127.0.0.1", port + 100))
 			self.links.append(sim.udp_link.UDPLink("127.0.0.1", port + 100, "127.0.0.1", port))
-		self.gen = sim.clck_gen.CLCKGen(self.links, clck_start = start_fn, ind_period = period)
+		self.gen = sim.clck_gen.CLCKGen(list(self.links), clck_start = start_fn, ind_period = period)
+		self.attached = set(range(nlinks))
+		self.link_script = {}
 		self.start_fn = start_fn
 		self.period = period
 		self.hdur = hdur          # k -> handler duration (ns)
@@ -36,7 +38,18 @@ class Run:
 	def handler(self, fn):
 		k = len(self.trace)
 		got = [[d for d, _ in ep.take_all()] for ep in self.eps]
-		self.trace.append((fn, self.vt.now, got))
+		self.trace.append((fn, self.vt.now, got, tuple(self.attached)))
+		# the set of clock links changes while the generator runs (transceivers power on and off)
+		ch = self.link_script.get(k)
+		if ch is not None:
+			op, i = ch
+			links = self.gen.clck_links
+			if op == "del" and self.links[i] in links:
+				links.remove(self.links[i])
+				self.attached.discard(i)
+			elif op == "add" and self.links[i] not in links:
+				links.append(self.links[i])
+				self.attached.add(i)
 		self.vt.now += self.hdur(k)
 
 	def go(self):
@@ -70,7 +83,7 @@ def check_trace(ctx, run, T, desc, restarted = False):
 		return "handler called %d times for %d ticks" % (len(tr), run.nticks)
 	d = run.t_start + T
 	worst = 0
-	for k, (fn, t, got) in enumerate(tr):
+	for k, (fn, t, got, attached) in enumerate(tr):
 		want_fn = (run.start_fn + k) % HYPER
 		if fn != want_fn:
 			return "tick %d carries fn %d, expected %d%s" % (k, fn, want_fn,
@@ -86,8 +99,10 @@ def check_trace(ctx, run, T, desc, restarted = False):
 		worst = max(worst, abs(t - d - lat))
 		want = [b"IND CLOCK %d\0" % fn] if fn % run.period == 0 else []
 		for li, g in enumerate(got):
-			if g != want:
-				return "tick fn=%d: link %d received %r, expected %r" % (fn, li, g[:3], want)
+			w_li = want if li in attached else []
+			if g != w_li:
+				return "tick fn=%d: link %d (%s) received %r, expected %r" % (fn, li,
+					"attached" if li in attached else "detached", g[:3], w_li)
 		if want:
 			ctx.count("indications_checked", len(got))
 		e = t + run.hdur(k)
@@ -183,15 +198,20 @@ def run(ctx):
 			"latency": ["none", "random 0..200us", "150us on 1/7 of the wake-ups"][lmode]}
 		ctx.seen(common.h64(desc))
 		rn = Run(world, start_fn, period, nlinks, nticks, hdur, lat)
+		if nlinks and r.random() < 0.3:
+			for _ in range(r.randint(1, 6)):
+				rn.link_script[r.randrange(nticks)] = (r.choice(("add", "del")), r.randrange(nlinks))
+			desc["links_change_while_running"] = len(rn.link_script)
+			ctx.count("runs_with_changing_links")
 		if not rn.go():
 			ctx.violation("run", desc, what = "clock thread did not finish %d ticks (hung)" % nticks)
 			continue
 		what = check_trace(ctx, rn, T, desc)
 		ctx.count("runs")
 		if i < 3:
-			ctx.sample("run", dict(desc, first_ticks = [(fn, t - rn.t_start) for fn, t, _ in rn.trace[:4]]))
+			ctx.sample("run", dict(desc, first_ticks = [(x[0], x[1] - rn.t_start) for x in rn.trace[:4]]))
 		if what:
-			ctx.violation("run", dict(desc, trace_head = [(fn, t - rn.t_start) for fn, t, _ in rn.trace[:6]]), what = what)
+			ctx.violation("run", dict(desc, trace_head = [(x[0], x[1] - rn.t_start) for x in rn.trace[:6]]), what = what)
 			if ctx.too_many():
 				break
 			continue
@@ -215,6 +235,7 @@ def run(ctx):
 	ctx.require("hyperframe_wraps", 5)
 	ctx.require("indications_checked", 100)
 	ctx.require("restarts", 10)
+	ctx.require("runs_with_changing_links", 20)
 
 
 def replay(ctx, data):
